@@ -37,7 +37,7 @@ def base(draw, nfmin=3):
     dims = draw(gen.extra_dims(maxdims=2, maxsize=3))
     npos = int(np.prod([n for _, n in dims])) if dims else 1
     specs = [draw(gen.spectrum(kinds=("multinoisy", "multi", "sparse", "constant", "zero"))) for _ in range(min(npos, 3))]
-    return dict(fg=fg, dg=dg, dims=dims, specs=specs, dtype=draw(st.sampled_from(["float64", "float32"])))
+    return dict(fg=fg, dg=dg, dims=dims, specs=specs, dtype=draw(st.sampled_from(["float64", "float32"])), lived=draw(gen.lived()))
 
 
 # ----------------------------------------------------------------------------- PTM4
@@ -58,7 +58,7 @@ def check_ptm4(case, ctx):
     from wavespectra.core.utils import celerity
     from .c01 import _positions
 
-    x = gen.build_dataarray(case["fg"], case["dg"], case["specs"], case["dims"], dtype=case["dtype"])
+    x = gen.build_dataarray(case["fg"], case["dg"], case["specs"], case["dims"], dtype=case["dtype"], lived=case.get("lived"))
     f, d = np.array(case["fg"]["f"]), np.array(case["dg"]["d"])
     winds = [dict(w) for w in case["winds"]]
     agefac = case["agefac"]
@@ -155,7 +155,7 @@ def _limits(box, f, dasc, omit):
 def check_bbox(case, ctx):
     from .c01 import _positions
 
-    x = gen.build_dataarray(case["fg"], case["dg"], case["specs"], case["dims"], dtype=case["dtype"])
+    x = gen.build_dataarray(case["fg"], case["dg"], case["specs"], case["dims"], dtype=case["dtype"], lived=case.get("lived"))
     f = np.array(case["fg"]["f"])
     d = np.array(case["dg"]["d"])
     dasc = np.sort(d)
@@ -237,7 +237,7 @@ def _fval(spec, f, low):
 def check_split(case, ctx):
     from .c01 import _positions
 
-    x = gen.build_dataarray(case["fg"], case["dg"], case["specs"], case["dims"], dtype=case["dtype"])
+    x = gen.build_dataarray(case["fg"], case["dg"], case["specs"], case["dims"], dtype=case["dtype"], lived=case.get("lived"))
     f, d = np.array(case["fg"]["f"]), np.array(case["dg"]["d"])
     dasc = np.sort(d)
     fmin, fmax = _fval(case["fmin"], f, True), _fval(case["fmax"], f, False)
@@ -307,7 +307,7 @@ def check_split(case, ctx):
 def check_stats_limits(case, ctx):
     import xarray as xr
 
-    x = gen.build_dataarray(case["fg"], case["dg"], case["specs"], case["dims"], dtype=case["dtype"])
+    x = gen.build_dataarray(case["fg"], case["dg"], case["specs"], case["dims"], dtype=case["dtype"], lived=case.get("lived"))
     f, d = np.array(case["fg"]["f"]), np.array(case["dg"]["d"])
     dasc = np.sort(d)
     fmin, fmax = _fval(case["fmin"], f, True), _fval(case["fmax"], f, False)
@@ -354,7 +354,7 @@ def ptm5_case(draw):
 def check_ptm5(case, ctx):
     from .c01 import _positions
 
-    x = gen.build_dataarray(case["fg"], case["dg"], case["specs"], case["dims"], dtype=case["dtype"])
+    x = gen.build_dataarray(case["fg"], case["dg"], case["specs"], case["dims"], dtype=case["dtype"], lived=case.get("lived"))
     f, d = np.array(case["fg"]["f"]), np.array(case["dg"]["d"])
     kind, i = case["cut"]
     fcut = float(f[max(i, 1)]) if kind == "node" else float(f[i] + 0.3 * (f[i + 1] - f[i]))
